@@ -110,10 +110,37 @@ fn build_symbol(s: &Session, sym: usize, share_id: u32, current_share: u32, k: u
         }
         "deactivate-all" => (proto::deactivate_all_with(p, sid, desc), Wrap::Sdi, 0),
         "multi-pdu" => {
+            // several share-control PDUs in one payload, a deactivate-all among them: whatever stands before or after it
+            // (PDUs the client decodes, PDUs it has no decoder for) the deactivation takes effect
             let mut b = B::new();
-            b.nest("a", &proto::set_error_info(p, sid, 1));
-            b.nest("b", &proto::deactivate_all_with(p, sid, desc));
-            b.nest("c", &proto::other_data_pdu(p, sid, 0x26, &[0u8; 8]));
+            let shape = if variant == 0 { 0 } else { vr.below(5) };
+            let undecodable = proto::other_data_pdu(p, sid, [0x26u8, 0x38, 0x02, 0x21][(k % 4) as usize], &[0u8; 8]);
+            match shape {
+                0 => {
+                    b.nest("a", &proto::set_error_info(p, sid, 1));
+                    b.nest("b", &proto::deactivate_all_with(p, sid, desc));
+                    b.nest("c", &proto::other_data_pdu(p, sid, 0x26, &[0u8; 8]));
+                }
+                1 => {
+                    b.nest("a", &undecodable);
+                    b.nest("b", &proto::deactivate_all_with(p, sid, desc));
+                }
+                2 => {
+                    b.nest("a", &undecodable);
+                    b.nest("b", &undecodable);
+                    b.nest("c", &proto::deactivate_all_with(p, sid, desc));
+                    b.nest("d", &proto::set_error_info(p, sid, 2));
+                }
+                3 => {
+                    b.nest("a", &proto::deactivate_all_with(p, sid, desc));
+                    b.nest("b", &undecodable);
+                }
+                _ => {
+                    b.nest("a", &proto::synchronize(p, sid, p.user_id));
+                    b.nest("b", &undecodable);
+                    b.nest("c", &proto::deactivate_all_with(p, sid, desc));
+                }
+            }
             (b, Wrap::Sdi, 0)
         }
         "fp-bitmap" => {
@@ -284,7 +311,11 @@ fn data_type_history(idx: u64) -> History {
     let t = OTHER_DATA_TYPES[(idx / 6) as usize % OTHER_DATA_TYPES.len()];
     let mut syms: Vec<usize> = happy[..state.min(5)].to_vec();
     syms.push(7);
-    syms.extend_from_slice(&happy[state.min(5)..]);
+    // second half of the class: the PDU stands IN PLACE of the one the state waits for (the activation must then not
+    // complete), first half: it is merely inserted
+    let replace = (idx / 6) as usize / OTHER_DATA_TYPES.len() % 2 == 1;
+    let rest = state.min(5) + if replace && state < 5 { 1 } else { 0 };
+    syms.extend_from_slice(&happy[rest..]);
     syms.extend_from_slice(&[9, 7, 9, 8, 7]);
     History { syms, share_ids: vec![0x000103ea], class: "data-type-in-every-state", plain: false, variant: 0, data_type: Some(t) }
 }
@@ -316,6 +347,7 @@ fn random_history(seed: u64, idx: u64) -> History {
 }
 
 pub fn run(cfg: &Cfg) -> Report {
+    crate::tls::prewarm(false);
     let seed = cfg.seed;
     let mut total = Report::new();
     let maxlen = if cfg.quick() { 4 } else { 6 };
@@ -332,7 +364,7 @@ pub fn run(cfg: &Cfg) -> Report {
         }
     }
     if cfg.wants(2) {
-        let n = 6 * OTHER_DATA_TYPES.len() as u64;
+        let n = 2 * 6 * OTHER_DATA_TYPES.len() as u64;
         let rep = par_run(cfg, n, 4, |idx, rep| {
             mon::begin_case(12, 101, idx, seed);
             let h = data_type_history(idx);
